@@ -559,6 +559,24 @@ class PteraTransformer(NodeTransformer):
             slc = slc.value if isinstance(target.slice, ast.Index) else slc
             if (
                 not expression
+                and isinstance(slc, ast.Slice)
+                and self.should_instrument(target.value.id, ann)
+            ):
+                # x[a:b] = v stores at the index slice(a, b): handled like
+                # any other index below (value first, bounds once)
+                slc = ast.copy_location(
+                    ast.Call(
+                        func=self._get("slice"),
+                        args=[
+                            part or ast.Constant(value=None)
+                            for part in (slc.lower, slc.upper, slc.step)
+                        ],
+                        keywords=[],
+                    ),
+                    slc,
+                )
+            if (
+                not expression
                 and not isinstance(slc, ast.Slice)
                 and self.should_instrument(target.value.id, ann)
             ):
@@ -1360,6 +1378,7 @@ def transform(fn, proceed, to_instrument=True, set_conformer=True):
         ),
         "ABSENT": ("__ptera_ABSENT", ABSENT),
         "Key": ("__ptera_Key", Key),
+        "slice": ("__ptera_slice", slice),
         "get_tags": ("__ptera_get_tags", get_tags),
         "self": (fnsym, None),
         "frame": ("__ptera_frame", None),
